@@ -479,10 +479,25 @@ Proof.
   destruct (cstep shared parts n st s); [apply IH|reflexivity|reflexivity].
 Qed.
 
+Lemma run_sched_noop : forall shared parts n st s k,
+  match nth_error (c_procs st) s with None => True | Some p => proc_done p = true end ->
+  run_sched shared parts n st (repeat s k) = Ok st.
+Proof.
+  intros shared parts n st s k H. induction k as [|k IH]; cbn [repeat run_sched]; [reflexivity|].
+  assert (E : cstep shared parts n st s = Ok st).
+  { unfold cstep. destruct (nth_error (c_procs st) s) as [p|]; [|reflexivity].
+    unfold proc_done in H. destruct (sp_phase p); try discriminate. destruct (sp_todo p); [reflexivity|discriminate]. }
+  rewrite E. exact IH.
+Qed.
+
 Lemma run_rep_is_sched : forall shared parts n k st s, run_rep shared parts n st s k = run_sched shared parts n st (repeat s k).
 Proof.
-  induction k as [|k IH]; intros st s; cbn [run_rep repeat run_sched]; [reflexivity|].
-  destruct (cstep shared parts n st s); [apply IH|reflexivity|reflexivity].
+  induction k as [|k IH]; intros st s; [reflexivity|]. cbn [run_rep].
+  destruct (nth_error (c_procs st) s) as [p|] eqn:Ep.
+  - destruct (proc_done p) eqn:Ed.
+    + symmetry. apply run_sched_noop. rewrite Ep. exact Ed.
+    + cbn [repeat run_sched]. destruct (cstep shared parts n st s); [apply IH|reflexivity|reflexivity].
+  - symmetry. apply run_sched_noop. rewrite Ep. exact I.
 Qed.
 
 Lemma run_lcg_is_sched : forall shared parts n nprocs burst fuel x st,
@@ -506,8 +521,8 @@ Lemma conc_exec_is_sched : forall shared parts n progs seed burst,
   exists sched, conc_exec shared parts n progs seed burst = run_sched shared parts n (c_init g_init n progs) sched.
 Proof.
   intros shared parts n progs seed burst. unfold conc_exec.
-  exists (lcg_sched (N.of_nat (length progs)) burst (total_records progs * (n + 3))%nat seed
-          ++ drain_sched O (length progs) (longest progs * (n + 3))%nat).
+  exists (lcg_sched (N.of_nat (length progs)) burst (S (Nat.div (total_records progs * (n + 4)) burst)) seed
+          ++ drain_sched O (length progs) (longest progs * (n + 4))%nat).
   rewrite run_sched_app, run_lcg_is_sched.
   destruct (run_sched shared parts n (c_init g_init n progs) _); try reflexivity.
   apply run_drain_is_sched.
